@@ -710,7 +710,8 @@ def write_case(rng, d):
     case = dict(xsec_path=os.path.join(d, 'xsec'), mols=mols, mix={m: 10 ** rng.uniform(-7, -3) for m in mols}, ratio=round(rng.uniform(0.05, 0.3), 3),
                 T=round(rng.uniform(500, 2500), 1), nlayers=rng.randint(5, 30), pmin=10 ** rng.uniform(-3, 0), pmax=10 ** rng.uniform(4, 6),
                 mass=round(rng.uniform(0.3, 3), 2), radius=round(rng.uniform(0.5, 1.8), 2), tstar=round(rng.uniform(3500, 7000)), rstar=round(rng.uniform(0.5, 1.5), 2),
-                model=rng.choice(['transmission', 'emission', 'directimage']), temp=rng.choice(['isothermal', 'guillot']), rayleigh=rng.random() < 0.5)
+                model=rng.choice(['transmission', 'emission', 'directimage']), temp=rng.choice(['isothermal', 'guillot']), rayleigh=rng.random() < 0.5,
+                new_path_method=rng.random() < 0.5, ngauss=rng.choice([2, 4, 6]))
     return case
 
 
@@ -746,10 +747,16 @@ radius = %r
 
 [Model]
 model_type = %s
-
+%s
     [[Absorption]]
 %s""" % (case['xsec_path'], case['ratio'], gases, temp, case['pmin'], case['pmax'], case['nlayers'], case['mass'], case['radius'],
-         case['tstar'], case['rstar'], case['model'], '\n    [[Rayleigh]]\n' if case['rayleigh'] else '')
+         case['tstar'], case['rstar'], case['model'], model_keys(case), '\n    [[Rayleigh]]\n' if case['rayleigh'] else '')
+
+
+def model_keys(case):
+    if case['model'] == 'transmission':
+        return 'new_path_method = %s\n' % case.get('new_path_method', False)
+    return 'ngauss = %d\n' % case.get('ngauss', 4)
 
 
 def library_model(case):
@@ -769,9 +776,10 @@ def library_model(case):
         chem.addGas(ConstantGas(m, mix_ratio=case['mix'][m]))
     temp = Isothermal(T=case['T']) if case['temp'] == 'isothermal' else Guillot2010(T_irr=case['T'])
     K = dict(transmission=TransmissionModel, emission=EmissionModel, directimage=DirectImageModel)[case['model']]
+    extra = dict(new_path_method=case.get('new_path_method', False)) if case['model'] == 'transmission' else dict(ngauss=case.get('ngauss', 4))
     model = K(planet=Planet(planet_mass=case['mass'], planet_radius=case['radius']), star=BlackbodyStar(temperature=case['tstar'], radius=case['rstar']),
               pressure_profile=SimplePressureProfile(nlayers=case['nlayers'], atm_min_pressure=case['pmin'], atm_max_pressure=case['pmax']),
-              temperature_profile=temp, chemistry=chem)
+              temperature_profile=temp, chemistry=chem, **extra)
     model.add_contribution(AbsorptionContribution())
     if case['rayleigh']:
         model.add_contribution(RayleighContribution())
